@@ -5,7 +5,7 @@ import operator
 
 import z3
 
-from .values import (V, SV, Obj, SeqV, ArrV, CaseV, DictV, Poison, FuncV, ModV, Undecided,
+from .values import (V, SV, Obj, SeqV, ArrV, CaseV, DictV, Poison, FuncV, ModV, Undecided, StrV,
                      fresh_name, is_nan, _counter)
 from .core import (Engine, PyRaise, ReturnSig, BreakSig, ContinueSig, RangeV, EnumV, ZipV, FoldAcc,
                    Carried, Scope, LoopCtx, Path, ufunc, boxI, sumI, NONE)
@@ -1441,7 +1441,7 @@ class Interp(Engine):
         fn = None
         if isinstance(e.func, ast.Attribute):
             base = self.eval(e.func.value, env)
-            if isinstance(base, (SV, SeqV, ArrV, DictV, str, tuple)) or \
+            if isinstance(base, (SV, SeqV, ArrV, DictV, str, tuple, StrV)) or \
                     (isinstance(base, Obj) and e.func.attr not in base.fields):
                 fn = FuncV('method', e.func.attr, self_val=base)
             else:
@@ -2015,7 +2015,7 @@ def _norm_lib(name):
     return '.'.join(parts)
 
 
-_LIBCONSTS = {'numpy.nan': float('nan'), 'numpy.inf': float('inf'), 'numpy.pi': math.pi, 'numpy.newaxis': None,
+_LIBCONSTS = {'os.sep': '/', 'numpy.nan': float('nan'), 'numpy.inf': float('inf'), 'numpy.pi': math.pi, 'numpy.newaxis': None,
               'numpy.float64': FuncV('lib', 'numpy.float64'), 'numpy.e': math.e}
 
 _BUILTINS = {'len', 'range', 'enumerate', 'zip', 'isinstance', 'int', 'float', 'bool', 'str', 'type', 'min', 'max',
@@ -2029,3 +2029,299 @@ _PYCMP = {'==': operator.eq, '!=': operator.ne, '<': operator.lt, '<=': operator
           '>=': operator.ge}
 _Z3CMP = {'==': lambda a, b: a == b, '!=': lambda a, b: a != b, '<': lambda a, b: a < b, '<=': lambda a, b: a <= b,
           '>': lambda a, b: a > b, '>=': lambda a, b: a >= b}
+
+
+# =====================================================================================================
+# structured strings (StrV): decided structurally for all values of the atoms
+# =====================================================================================================
+from .values import StrV  # noqa: E402
+
+_ALNUM = set('abcdefghijklmnopqrstuvwxyzABCDEFGHIJKLMNOPQRSTUVWXYZ0123456789')
+
+
+def _is_sep(c):
+    return c not in _ALNUM
+
+
+def strv_of(x):
+    if isinstance(x, StrV):
+        return x
+    if isinstance(x, str):
+        return StrV([x])
+    if isinstance(x, SV) and x.tag == 'atom':
+        return StrV([x])
+    return None
+
+
+def strv_concat(parts):
+    out = []
+    for p in parts:
+        s = strv_of(p)
+        if s is None:
+            return None
+        out.extend(s.parts)
+    return StrV(out)
+
+
+def strv_plain(s):
+    """python str if the structured string has no atom"""
+    if all(isinstance(p, str) for p in s.parts):
+        return ''.join(s.parts)
+    return None
+
+
+def strv_split(s, sep):
+    if len(sep) != 1 or not _is_sep(sep):
+        raise Undecided('split of a structured string at a separator inside the value alphabet')
+    segs = [[]]
+    for p in s.parts:
+        if isinstance(p, str):
+            bits = p.split(sep)
+            segs[-1].append(bits[0])
+            for b in bits[1:]:
+                segs.append([b])
+        else:
+            segs[-1].append(p)
+    out = []
+    for sg in segs:
+        v = StrV(sg)
+        pl = strv_plain(v)
+        out.append(pl if pl is not None else v)
+    return out
+
+
+def strv_startswith(s, lit):
+    """True / False when decidable for ALL atom values, else Undecided"""
+    pos = 0
+    for p in s.parts:
+        if pos >= len(lit):
+            return True
+        if isinstance(p, str):
+            k = min(len(p), len(lit) - pos)
+            if p[:k] != lit[pos:pos + k]:
+                return False
+            pos += k
+        else:
+            # an atom is a non-empty alphanumeric run: the rest of `lit` up to its next separator must be matched by the
+            # atom (possibly followed by more).  If `lit` has a separator later, the atom would have to end exactly there
+            rest = lit[pos:]
+            nxt = next((i for i, c in enumerate(rest) if _is_sep(c)), None)
+            if nxt == 0:
+                return False           # lit needs a separator here, the atom starts with an alphanumeric
+            if nxt is not None:
+                # the atom would have to be exactly rest[:nxt] AND be followed by the separator rest[nxt]
+                k = s.parts.index(p)
+                following = s.parts[k + 1] if k + 1 < len(s.parts) else None
+                if not (isinstance(following, str) and following[:1] == rest[nxt]):
+                    return False
+            raise Undecided('prefix test depends on the value of an atom')
+    return pos >= len(lit)
+
+
+def strv_replace(s, old, new):
+    if not any(_is_sep(c) for c in old):
+        raise Undecided('replacement of an alphanumeric literal may hit atoms')
+    # occurrences of `old` need its separator characters to sit in literal pieces; an occurrence overlapping an atom
+    # would need the atom to supply the alphanumeric neighbours of a separator: only possible at piece borders
+    out = []
+    for k, p in enumerate(s.parts):
+        if isinstance(p, str):
+            # an occurrence could straddle a border with an atom if old starts/ends with alphanumerics next to it
+            first_sep = next(i for i, c in enumerate(old) if _is_sep(c))
+            last_sep = max(i for i, c in enumerate(old) if _is_sep(c))
+            head, tail = old[:first_sep], old[last_sep + 1:]
+            if head and k > 0 and not isinstance(s.parts[k - 1], str) and p.startswith(old[first_sep:]):
+                raise Undecided('replacement may straddle an atom')
+            if tail and k + 1 < len(s.parts) and not isinstance(s.parts[k + 1], str) and p.endswith(old[:last_sep + 1]):
+                raise Undecided('replacement may straddle an atom')
+            out.append(p.replace(old, new))
+        else:
+            out.append(p)
+    v = StrV(out)
+    pl = strv_plain(v)
+    return pl if pl is not None else v
+
+
+def _strv_method(self, s, name, args, kwargs):
+    if name == 'split':
+        sep = args[0] if args else None
+        if not isinstance(sep, str):
+            raise Undecided('split without a literal separator')
+        items = strv_split(s, sep)
+        return SeqV(items=items, kind='list')
+    if name == 'startswith':
+        lit = args[0]
+        if isinstance(lit, StrV):
+            lit = strv_plain(lit)
+        if not isinstance(lit, str):
+            raise Undecided('startswith with a symbolic prefix')
+        return strv_startswith(s, lit)
+    if name == 'replace':
+        old, new = args[0], args[1]
+        old = strv_plain(old) if isinstance(old, StrV) else old
+        if not isinstance(old, str) or not isinstance(new, str):
+            raise Undecided('replace with symbolic arguments')
+        return strv_replace(s, old, new)
+    if name in ('lstrip', 'rstrip', 'strip') and args:
+        # strips a SET of characters: may eat into an adjacent atom -> the result is not structurally determined
+        return self.app(f'str.{name}', [s] + list(args), tag='atom-derived')
+    if name == 'join':
+        seq = args[0]
+        items = seq.items if isinstance(seq, SeqV) and seq.items is not None else (list(seq) if isinstance(seq, tuple) else None)
+        if items is None:
+            raise Undecided('join of a symbolic list')
+        parts = []
+        for k, it in enumerate(items):
+            if k:
+                parts.append(s)
+            parts.append(it)
+        v = strv_concat(parts)
+        if v is None:
+            raise Undecided('join of non-string items')
+        pl = strv_plain(v)
+        return pl if pl is not None else v
+    raise Undecided(f'string method {name} on a structured string')
+
+
+Interp._strv_method = _strv_method
+_orig_call_method = Interp.call_method
+
+
+def _call_method2(self, selfv, name, args, kwargs):
+    if isinstance(selfv, StrV):
+        return self._strv_method(selfv, name, args, kwargs)
+    if isinstance(selfv, str) and any(isinstance(a, StrV) or (isinstance(a, SV) and a.tag == 'atom') or
+                                      (isinstance(a, SeqV) and a.items is not None and any(isinstance(i, (StrV, SV)) for i in a.items))
+                                      for a in args):
+        return self._strv_method(StrV([selfv]), name, args, kwargs)
+    if isinstance(selfv, SV) and selfv.tag == 'atom':
+        return self._strv_method(StrV([selfv]), name, args, kwargs)
+    if isinstance(selfv, Obj) and selfv.cls in self.exec_classes:
+        fv = self.find_method(selfv.cls, name)
+        if fv is not None:
+            fv = FuncV('repo', fv.name, node=fv.node, module=fv.module, self_val=selfv)
+            decos = [d.id for d in fv.node.decorator_list if isinstance(d, ast.Name)]
+            self.inline_depth += 1
+            try:
+                return self.run_function(fv, list(args), dict(kwargs))
+            finally:
+                self.inline_depth -= 1
+    return _orig_call_method(self, selfv, name, args, kwargs)
+
+
+Interp.call_method = _call_method2
+Interp.exec_classes = set()
+_orig_call_class = Interp.call_class
+
+
+def _call_class2(self, fn, args, kwargs):
+    name = fn.name.rsplit('.', 1)[-1]
+    if name in self.exec_classes:
+        o = Obj(z3.Const(fresh_name('obj'), V), name)
+        init = self.find_method(name, '__init__')
+        if init is not None:
+            fv = FuncV('repo', init.name, node=init.node, module=init.module, self_val=o)
+            self.inline_depth += 1
+            try:
+                self.run_function(fv, list(args), dict(kwargs))
+            finally:
+                self.inline_depth -= 1
+        return o
+    return _orig_call_class(self, fn, args, kwargs)
+
+
+Interp.call_class = _call_class2
+_orig_binop = Interp.binop
+
+
+def _binop2(self, op, a, b):
+    if op == '+' and (isinstance(a, StrV) or isinstance(b, StrV) or (isinstance(a, SV) and a.tag == 'atom') or (isinstance(b, SV) and b.tag == 'atom')):
+        v = strv_concat([a, b])
+        if v is not None:
+            return v
+    return _orig_binop(self, op, a, b)
+
+
+Interp.binop = _binop2
+_orig_joined = Interp.ex_JoinedStr
+
+
+def _joined2(self, e, env):
+    parts = []
+    sym = False
+    for x in e.values:
+        if isinstance(x, ast.Constant):
+            parts.append(x.value)
+        else:
+            v = self.eval(x.value, env)
+            if isinstance(v, StrV) or (isinstance(v, SV) and v.tag == 'atom'):
+                sym = True
+                parts.append(v)
+            elif isinstance(v, (str, int, float)):
+                parts.append(str(v))
+            else:
+                return _orig_joined(self, e, env)
+    if not sym:
+        return ''.join(parts)
+    return strv_concat(parts)
+
+
+Interp.ex_JoinedStr = _joined2
+_orig_truth = Interp.truth
+
+
+def _truth2(self, v):
+    if isinstance(v, StrV):
+        return len(v.parts) > 0
+    if isinstance(v, SV) and v.tag == 'atom':
+        return True
+    return _orig_truth(self, v)
+
+
+Interp.truth = _truth2
+_orig_compare = Interp.compare
+
+
+def _compare2(self, op, a, b):
+    sa, sb = strv_of(a) if not isinstance(a, str) else None, strv_of(b) if not isinstance(b, str) else None
+    if op in ('==', '!=') and (sa is not None or sb is not None):
+        x = sa if sa is not None else strv_of(a)
+        y = sb if sb is not None else strv_of(b)
+        if x is None or y is None:
+            return op == '!='
+        if x.key() == y.key():
+            return op == '=='
+        # different structure: equal only for particular atom values; decided False when a separator is misaligned
+        px, py = strv_plain(x), strv_plain(y)
+        seps_x = [c for p in x.parts if isinstance(p, str) for c in p if _is_sep(c)]
+        seps_y = [c for p in y.parts if isinstance(p, str) for c in p if _is_sep(c)]
+        if seps_x != seps_y:
+            return op == '!='
+        raise Undecided('equality of structured strings depends on atom values')
+    return _orig_compare(self, op, a, b)
+
+
+Interp.compare = _compare2
+_orig_veq = Interp.veq
+
+
+def _veq2(self, a, b, depth=0):
+    if isinstance(a, StrV) or isinstance(b, StrV):
+        x, y = strv_of(a), strv_of(b)
+        if x is None or y is None:
+            return z3.BoolVal(False)
+        return z3.BoolVal(x.key() == y.key())
+    return _orig_veq(self, a, b, depth)
+
+
+Interp.veq = _veq2
+_orig_toV = Interp.toV
+
+
+def _toV2(self, v):
+    if isinstance(v, StrV):
+        return ufunc(f'strcat{len(v.parts)}', len(v.parts))(*[self.toV(p) for p in v.parts]) if v.parts else self.strconst('')
+    return _orig_toV(self, v)
+
+
+Interp.toV = _toV2
